@@ -15,7 +15,7 @@ echo "== changed tree: suite"
 timeout 900 /venv/bin/python -m pytest -q -p no:cacheprovider tests > "$LOG.suite.txt" 2>&1; echo "suite_exit=$? $(tail -1 "$LOG.suite.txt")"
 PYTHONPATH="$WT" timeout 300 /venv/bin/python "$DEMO" > "$LOG.demo_changed.txt" 2>&1; echo "demo_changed_exit=$?"
 for id in "$@"; do
-  ( cd /verif && VERIF_REPO="$WT" VERIF_VERBOSE=1 timeout 3600 bin/check "$id" --no-evidence > "$LOG.$id.txt" 2>&1; echo "check_$id exit=$? $(grep -c '^VIOLATION' "$LOG.$id.txt") violations; $(grep -m2 '^counterexample' "$LOG.$id.txt" | cut -c1-300)" )
+  ( cd /verif && VERIF_REPO="$WT" VERIF_VERBOSE=1 VERIF_FAILFAST=1 timeout 3600 bin/check "$id" --no-evidence > "$LOG.$id.txt" 2>&1; echo "check_$id exit=$? $(grep -c '^VIOLATION' "$LOG.$id.txt") violations; $(grep -m2 '^counterexample' "$LOG.$id.txt" | cut -c1-300)" )
 done
 git checkout -q -- .
 rm -f coverage.xml
